@@ -24,4 +24,7 @@ def run(ctx):
         tr = pc.validate_prog(ctx, exe, 2, p, WHAT, n, ctx.seed + i, mult=1)
     ctx.sample({'programs': progs})
     ctx.sample_trace(tr, 12, skip=30)
-    ctx.assumptions += pc.ASSUME + ['TaskSet / ConcurrentTaskSet ForceQueuingTag paths are checked by the task-set checks']
+    # TaskSet / ConcurrentTaskSet half of the property (spec/taskset/TaskSet.tla, drv_taskset)
+    import c47_taskset
+    c47_taskset.run_taskset_part(ctx)
+    ctx.assumptions += pc.ASSUME
